@@ -83,8 +83,9 @@ class Spec:
         self.ret = kw.get("ret", "{e}")
         self.result_type = kw["result_type"]
         self.end_return = kw.get("end_return")
-        self.asserts = kw.get("asserts", "drop")
+        self.asserts = kw.get("asserts", "drop")                # "drop" | "error" (leave with assert_exit) | "except" (leave with `.error assert_error`)
         self.assert_exit = kw.get("assert_exit")
+        self.assert_error = kw.get("assert_error")
         self.body_filter = kw.get("body_filter")
         self.predeclare = list(kw.get("predeclare", []))      # [(lean var, lean init text)]: variables first assigned inside branches
         self.try_passthrough = kw.get("try_passthrough", False)
@@ -96,6 +97,10 @@ class Spec:
         self.doc = kw.get("doc", "")
         for n, t in self.params:
             self.types.setdefault(n, t)
+
+    @property
+    def except_mode(self):
+        return bool(self.raise_map) or self.asserts == "except"
 
 
 class K:
@@ -194,6 +199,8 @@ def _has_ctrl(stmts, kinds, spec):
         if isinstance(s, ast.Assert) and "assert" in kinds and spec.asserts == "error":
             return True
         if isinstance(s, ast.Raise) and "raise" in kinds:
+            return True
+        if isinstance(s, ast.Assert) and "raise" in kinds and spec.asserts == "except":
             return True
         if isinstance(s, ast.If):
             if _has_ctrl(s.body, kinds, spec) or _has_ctrl(s.orelse, kinds, spec):
@@ -426,6 +433,8 @@ class Translator:
                 if key in u:
                     return [".error " + val]
             U("raise statement not in the spec's raise_map: " + u[:80])
+        if isinstance(s, ast.Assert) and sp.asserts == "except":
+            return ["if %s then" % self.expr(s.test)] + ind(self.block(rest, k, defined)) + ["else"] + ind([".error " + sp.assert_error])
         if isinstance(s, ast.Assert) and sp.asserts == "error":
             return ["if %s then" % self.expr(s.test)] + ind(self.block(rest, k, defined)) + ["else"] + \
                 ind(k.ret(None, defined, error=True))
@@ -559,7 +568,7 @@ class Translator:
 
         def again(d):
             return [call_holder["call"]]
-        exc = bool(sp.raise_map)
+        exc = sp.except_mode
         if exc and not sp.fuel_error:
             U("while in a function that raises: the spec must give fuel_error")
         OK = ".ok " if exc else "some "
@@ -609,7 +618,7 @@ class Translator:
         if _has_ctrl(s.body, ("return",), sp):
             U("return inside for")
         err = sp.asserts == "error" and _has_ctrl(s.body, ("assert",), sp)
-        exc = bool(sp.raise_map) and _has_ctrl(s.body, ("raise",), sp)
+        exc = sp.except_mode and _has_ctrl(s.body, ("raise",), sp)
         if err and exc:
             U("assert-as-error and raise in one loop")
         opt = any(isinstance(n, ast.While) for n in ast.walk(s)) or any(ast.unparse(n) in sp.pop_map for n in ast.walk(s) if isinstance(n, ast.stmt))
@@ -658,7 +667,7 @@ class Translator:
         if sp.body_filter:
             body = sp.body_filter(body)
         wrap = (lambda t: "some " + t) if self.optional else (lambda t: t)
-        if sp.raise_map:
+        if sp.except_mode:
             if sp.pop_map:
                 U("raise together with stream draws")
             wrap = lambda t: ".ok " + t      # noqa: E731
@@ -682,7 +691,7 @@ class Translator:
         lines = pre + self.block(body, K(on_fall, on_ret), defined)
         params = " ".join("(%s : %s)" % (n, t) for n, t in sp.params)
         rty = ("Option (%s)" % sp.result_type) if self.optional else sp.result_type
-        if sp.raise_map:
+        if sp.except_mode:
             rty = "Except %s (%s)" % (sp.error_type, sp.result_type)
         fuel = "(fuel : Nat) " if self.uses_fuel else ""
         main = ["/-- `%s` -- %s -/" % (self.fn.name, sp.doc),
